@@ -114,6 +114,11 @@ func genC02(t *rapid.T) statCase {
 		n = drawLen(t, 128, []int{6272, 6272 + 8, 128 * 50})
 		if thorough() && rapid.IntRange(0, 60).Draw(t, "big") == 0 {
 			n = 750000 + rapid.IntRange(-2, 20000).Draw(t, "dn")
+			if rapid.Bool().Draw(t, "big_longrun") { // one planted run of 100..10000 bits (of the value under test or the other one)
+				c.Seq = gen.Seq{Family: "longrun", N: n, Seed: rapid.Uint64().Draw(t, "lrseed"), A: rapid.IntRange(0, 1).Draw(t, "lrv"),
+					B: uniformInt(t, 100, 10000, "lrlen"), Pos: []int{uniformInt(t, 0, n-1, "lrpos")}}
+				return c
+			}
 		}
 	}
 	fams := []string{"explicit", "uniform", "biased", "constant", "alternating", "periodic", "sparse", "markov", "transition", "longrun", "runs", "runs", "markov", "balanced", "bytewords", "bytewords"}
@@ -168,6 +173,25 @@ func TestC02Sweep(t *testing.T) {
 					q.Pos[1] = 1
 				}
 				cases = append(cases, statCase{Test: "longest", Flag: ones, Seq: q})
+			}
+		}
+	}
+	// one very long run inside one 10000-bit block (n >= 750000): lengths around the widths of narrow integer types (2^7, 2^8, 2^9 .. 2^13)
+	// and the whole block; also 128-bit blocks that are one single run (2^7 exactly)
+	for j, l := range []int{127, 128, 129, 255, 256, 257, 260, 271, 272, 300, 511, 512, 513, 1023, 1024, 1030, 2048, 4095, 4096, 4100, 8191, 8192, 8200, 9999, 10000} {
+		for _, ones := range []bool{true, false} {
+			v := 0
+			if ones {
+				v = 1
+			}
+			n := []int{750000, 1000000, 750000 + 8*17}[j%3]
+			pos := 30000 + 100*(j%7)
+			if l >= 9000 {
+				pos = 30000
+			}
+			cases = append(cases, statCase{Test: "longest", Flag: ones, Seq: gen.Seq{Family: "longrun", N: n, Seed: uint64(700 + j), A: v, B: l, Pos: []int{pos}}})
+			if l <= 300 { // the 128-bit regime: the run covers whole blocks (longest run = 128 = the block)
+				cases = append(cases, statCase{Test: "longest", Flag: ones, Seq: gen.Seq{Family: "longrun", N: 128 * 300, Seed: uint64(800 + j), A: v, B: l, Pos: []int{128 * 7}}})
 			}
 		}
 	}
